@@ -4,6 +4,7 @@ import (
 	"bytes"
 	"encoding/binary"
 	"fmt"
+	"io"
 	"math"
 	"os"
 	"strconv"
@@ -54,8 +55,13 @@ type m4Tables struct {
 	noCo      bool
 	fastStart bool // moov before mdat ("fast start" files): the payload then runs to the very end of the file
 	shifted   bool
-	spareCo   int // with stco present: also a co64 box (ignored by the decoder) holding this many fewer entries (0: none)
-	extra     int // 0 none, 1 video track first, 2 other meta track first, 3 both
+	holeAt    int       // a hole (video data nobody points into) of holeLen zero bytes before payload byte holeAt of the mdat box ...
+	holeLen   uint64    // ... which only exists virtually: the file is read through a sparse reader (0: no hole)
+	gap       string    // "P:G" of the op: file position and length of the hole
+	decoy     [2]string // without a metadata track: a track that only looks like one (handler type, name)
+	metName   string    // handler name of the metadata track ("" = the camera's "\tGoPro MET")
+	spareCo   int       // with stco present: also a co64 box (ignored by the decoder) holding this many fewer entries (0: none)
+	extra     int       // 0 none, 1 video track first, 2 other meta track first, 3 both
 }
 
 func (t *m4Tables) trak(handler, name string, meta bool) []byte {
@@ -119,39 +125,76 @@ func (t *m4Tables) trak(handler, name string, meta bool) []byte {
 	return box("trak", tkhd, box("mdia", mdhd, hdlr, minf))
 }
 
-// file = ftyp, mdat(payload), moov; returns the file and the absolute offset of the payload.
+// mdatBox: the media data box declaring `virtual` more bytes than it is given (the hole)
+func mdatBox(payload []byte, virtual uint64) []byte {
+	n := uint64(8+len(payload)) + virtual
+	if n < 1<<32 {
+		return append(append(u32(uint32(n)), "mdat"...), payload...)
+	}
+	b := append(u32(1), "mdat"...)
+	b = binary.BigEndian.AppendUint64(b, n+8)
+	return append(b, payload...)
+}
+
+// file = ftyp, mdat(payload), moov (or ftyp, moov, mdat for fast-start files); returns the file
+// as it is held in memory: with a hole, the bytes before and after it, t.gap saying where it is.
 func (t *m4Tables) file(payload []byte) []byte {
 	ftyp := box("ftyp", []byte("mp41"), u32(0), []byte("mp41"))
-	mdat := box("mdat", payload)
-	var traks [][]byte
-	if t.extra&1 != 0 || t.fastStart {
-		// (fast start: the video trak comes first, as the camera writes it; mp4ff looks at the first trak's stts)
-		traks = append(traks, t.trak("vide", "\tGoPro AVC", false))
-	}
-	if t.extra&2 != 0 {
-		traks = append(traks, t.trak("meta", "\tGoPro TCD", false))
-	}
-	if t.track {
-		traks = append(traks, t.trak("meta", "\tGoPro MET", true))
-	}
-	if len(traks) == 0 {
-		// a moov without any trak is not a valid container (and crashes mp4ff itself)
-		traks = append(traks, t.trak("vide", "\tGoPro AVC", false))
-	}
-	mvhd := box("mvhd", make([]byte, 100))
-	moov := box("moov", append([][]byte{mvhd}, traks...)...)
-	if t.fastStart {
-		if !t.shifted {
-			// the chunk offsets move by the size of the moov box (which does not depend on their values)
-			t.shifted = true
-			for i := range t.co {
-				t.co[i] += uint64(len(moov))
-			}
-			return t.file(payload)
+	mdat := mdatBox(payload, t.holeLen)
+	hdr := len(mdat) - len(payload)
+	moovOf := func() []byte {
+		var traks [][]byte
+		if t.extra&1 != 0 || t.fastStart {
+			// (fast start: the video trak comes first, as the camera writes it; mp4ff looks at the first trak's stts)
+			traks = append(traks, t.trak("vide", "\tGoPro AVC", false))
 		}
-		return append(append(ftyp, moov...), mdat...)
+		if t.extra&2 != 0 {
+			traks = append(traks, t.trak("meta", "\tGoPro TCD", false))
+		}
+		if t.track {
+			name := t.metName
+			if name == "" {
+				name = "\tGoPro MET"
+			}
+			traks = append(traks, t.trak("meta", name, true))
+		} else if t.decoy[0] != "" {
+			traks = append(traks, t.trak(t.decoy[0], t.decoy[1], true))
+		}
+		if len(traks) == 0 {
+			// a moov without any trak is not a valid container (and crashes mp4ff itself)
+			traks = append(traks, t.trak("vide", "\tGoPro AVC", false))
+		}
+		mvhd := box("mvhd", make([]byte, 100))
+		return box("moov", append([][]byte{mvhd}, traks...)...)
 	}
-	return append(append(ftyp, mdat...), moov...)
+	if !t.shifted {
+		// the chunk offsets were laid out for ftyp + an 8-byte mdat header + payload: move them for a
+		// longer header, a moov box in front (its size does not depend on their values) and the hole
+		t.shifted = true
+		lead := uint64(hdr - 8)
+		if t.fastStart {
+			lead += uint64(len(moovOf()))
+		}
+		for i := range t.co {
+			if t.holeLen > 0 && t.co[i] >= uint64(m4PayloadBase+t.holeAt) {
+				t.co[i] += t.holeLen
+			}
+			t.co[i] += lead
+		}
+	}
+	moov := moovOf()
+	var out []byte
+	pos := len(ftyp) + hdr + t.holeAt
+	if t.fastStart {
+		out = append(append(ftyp, moov...), mdat...)
+		pos += len(moov)
+	} else {
+		out = append(append(ftyp, mdat...), moov...)
+	}
+	if t.holeLen > 0 {
+		t.gap = fmt.Sprintf("%d:%d", pos, t.holeLen)
+	}
+	return out
 }
 
 const m4PayloadBase = 20 + 8 // ftyp box (20 bytes) + mdat header
@@ -195,11 +238,77 @@ func m4Op(mode string, t *m4Tables, file []byte) string {
 	if t.uniform == 0 {
 		sn = uint32(len(t.sizes))
 	}
-	return fmt.Sprintf("dec %s ts=%d track=%s stsc=%s stts=%s sz=%s uni=%d sn=%d co=%s file=%s", mode, t.ts, b01(t.track),
-		pairs(t.stsc), pairs(t.stts), sz, t.uniform, sn, co, hexBytes(file))
+	gap := ""
+	if t.gap != "" {
+		gap = " gap=" + t.gap
+	}
+	return fmt.Sprintf("dec %s ts=%d track=%s stsc=%s stts=%s sz=%s uni=%d sn=%d co=%s%s file=%s", mode, t.ts, b01(t.track),
+		pairs(t.stsc), pairs(t.stts), sz, t.uniform, sn, co, gap, hexBytes(file))
 }
 
 // ---- implementation side ---------------------------------------------------------------
+
+// sparseFile reads as data[:at] ++ hole zero bytes ++ data[at:] without holding the hole.
+type sparseFile struct {
+	data []byte
+	at   int64
+	hole int64
+	pos  int64
+}
+
+func (f *sparseFile) size() int64 { return int64(len(f.data)) + f.hole }
+
+func (f *sparseFile) Read(p []byte) (int, error) {
+	if f.pos >= f.size() {
+		return 0, io.EOF
+	}
+	n := int64(len(p))
+	if n > f.size()-f.pos {
+		n = f.size() - f.pos
+	}
+	// a buffer of many megabytes is the fresh (zero) buffer the mp4 library reads the whole media
+	// data box into: no need to touch every page of the hole
+	if n <= 1<<20 {
+		clear(p[:n])
+	}
+	lo, hi := f.pos, f.pos+n
+	if lo < f.at {
+		e := min(hi, f.at)
+		copy(p[:e-lo], f.data[lo:e])
+	}
+	if hi > f.at+f.hole {
+		b := max(lo, f.at+f.hole)
+		copy(p[b-lo:hi-lo], f.data[b-f.hole:hi-f.hole])
+	}
+	f.pos += n
+	return int(n), nil
+}
+
+func (f *sparseFile) Seek(offset int64, whence int) (int64, error) {
+	switch whence {
+	case io.SeekCurrent:
+		offset += f.pos
+	case io.SeekEnd:
+		offset += f.size()
+	}
+	if offset < 0 {
+		return 0, fmt.Errorf("negative position")
+	}
+	f.pos = offset
+	return f.pos, nil
+}
+
+// m4Reader: the file of the op as the decoder gets it
+func m4Reader(toks []string, file []byte) io.ReadSeeker {
+	g := cvField(toks, "gap")
+	if g == "" {
+		return bytes.NewReader(file)
+	}
+	p := strings.Split(g, ":")
+	at, _ := strconv.ParseInt(p[0], 10, 64)
+	hole, _ := strconv.ParseInt(p[1], 10, 64)
+	return &sparseFile{data: file, at: at, hole: hole}
+}
 
 func durs[T any](n int, get func(i int) time.Duration) string {
 	if n == 0 {
@@ -231,13 +340,13 @@ func m4Offsets(b *strings.Builder, es []*gpmf.Element) {
 	})
 }
 
-func m4Decode(file []byte) string {
+func m4Decode(rs io.ReadSeeker) string {
 	ch := make(chan string, 1)
 	go func() {
 		var es []*gpmf.Element
 		cls, _ := classify(func() error {
 			var err error
-			es, err = gpmf.NewDecoder().Decode(bytes.NewReader(file))
+			es, err = gpmf.NewDecoder().Decode(rs)
 			return err
 		})
 		if cls != "ok" {
@@ -259,7 +368,7 @@ func m4Decode(file []byte) string {
 
 // m4Echo checks the synthesiser against mp4ff: the tables written are the tables parsed.
 func m4Echo(toks []string, file []byte) bool {
-	f, err := mp4.DecodeFile(bytes.NewReader(file))
+	f, err := mp4.DecodeFile(m4Reader(toks, file))
 	if cvField(toks, "track") != "1" {
 		return true
 	}
@@ -296,7 +405,7 @@ func execM4(_ *config, op string) string {
 	if !m4Echo(toks, file) {
 		return "synth-mismatch"
 	}
-	return m4Decode(file)
+	return m4Decode(m4Reader(toks, file))
 }
 
 // ---- generators --------------------------------------------------------------------------
@@ -510,6 +619,19 @@ func genM4(cfg *config, r *rng, i int, s *sink) string {
 			payload = gmMutate(r, payload)
 		}
 	}
+	if !broken && r.chance(1, 4) {
+		// the track is found by "GoPro MET" anywhere in its handler name: the first byte of the
+		// camera's names is a length byte, joined or re-muxed files carry other names
+		t.metName = pick(r, []string{"\x0bGoPro MET  ", "\x0eGoPro MET     ", "GoPro MET", "GoPro MET  ", "Joined GoPro MET", "#4 GoPro MET  ", " GoPro MET", "xGoPro METx"})
+		s.count("m4.metname")
+	}
+	if !broken && r.chance(1, 12) {
+		// no metadata track, but one that nearly is: wrong handler type, or a name without "GoPro MET"
+		t.track = false
+		t.decoy = pick(r, [][2]string{{"meta", "\tGoPro SOS"}, {"meta", "\tGoPro MEt"}, {"meta", "\tgopro met"}, {"meta", "\tGoPro  MET"},
+			{"text", "\tGoPro MET"}, {"vide", "\tGoPro MET"}, {"meta", ""}})
+		s.count("m4.decoy")
+	}
 	s.count("m4.mode." + mode)
 	return m4Op(mode, t, t.file(payload))
 }
@@ -539,6 +661,25 @@ func corpusM4(cfg *config) []string {
 	t4 := *t1
 	t4.ts = 0
 	ops = append(ops, m4Op("mut", &t4, t4.file(p)))
+	// chunks behind the 2 GiB and 4 GiB marks (stco reaches 4 GiB, co64 is for what lies beyond): three
+	// one-sample chunks with a hole — video nobody points into — before the last; the file is read
+	// through a sparse reader
+	p3 := append(append(append([]byte{}, one...), two...), one...)
+	for _, h := range []struct {
+		target uint64 // file position of the third chunk
+		co64   bool
+		fast   bool
+	}{{1<<31 - 8, false, false}, {1 << 31, false, false}, {1 << 31, false, true}, {3 << 30, true, false}, {1<<32 - 4096, false, false}, {1<<32 + 4096, true, false}} {
+		t5 := &m4Tables{track: true, ts: 1000, stsc: [][2]uint32{{1, 1}}, stts: [][2]uint32{{3, 1001}},
+			sizes: []uint32{uint32(len(one)), uint32(len(two)), uint32(len(one))}, co64: h.co64, fastStart: h.fast,
+			co: []uint64{m4PayloadBase, uint64(m4PayloadBase + len(one)), uint64(m4PayloadBase + len(one) + len(two))}}
+		t5.holeAt = len(one) + len(two)
+		t5.holeLen = h.target - uint64(m4PayloadBase+t5.holeAt)
+		if cfg.tier == "quick" && h.target > 1<<31 {
+			continue // one multi-gigabyte (virtual) file is enough for the quick tier
+		}
+		ops = append(ops, m4Op("wf", t5, t5.file(p3)))
+	}
 	_ = strconv.Itoa
 	return ops
 }
